@@ -48,7 +48,7 @@ CHECKS = {
               "files re-parsed) equals the reference bit for bit per chain and variable, in recording order, warmup before sampling, with the "
               "declared type, shape and metadata; event arrays hold exactly the recorded events; store_warmup=false leaves exactly the sampling "
               "rows; CSV tokens equal the value to half a unit of the printed precision. All backends are compared with the same reference, so "
-              "they agree with each other."),
+              "they agree with each other. Event fields may be present on only about half of the events of their dimension; the trace-level inspect is interleaved with the recording and Sampler::inspect is called in the end-to-end part; zero-draw runs are included."),
         design_ref="DESIGN.md section 3, C14",
         note=("Each backend is held to what its format can express: HashMap, ndarray and Zarr encode draw / chain as array position, CSV holds "
               "the seven CmdStan statistics and the numeric draw variables. Zarr stores the fields of an event dimension packed (k-th row = k-th "
@@ -83,7 +83,7 @@ CHECKS = {
               "resume, progress, flush and inspect calls; a recording storage backend (storage traits re-exported by a cfg-guarded hook) "
               "captures every record_sample argument. Oracle: every run's per-chain trace is bit-identical to the chain run alone through "
               "Settings::new_chain with ChaCha8(seed, stream = chain + 1) and the documented call order, and no two chains record the same "
-              "first draw. The oracle is schedule-free, so any difference is a violation even if the interleaving does not replay."),
+              "first draw. The oracle is schedule-free, so any difference is a violation even if the interleaving does not replay. The test model's math() consumes the generator it is given (a small random shift of the density), so a chain's recorded values depend on the stream handed to every model call."),
         design_ref="DESIGN.md section 3, C10",
         note=("Schedule independence is explored, not proved: timing is perturbed inside the density and by command timing; the OS scheduler "
               "inside blocking calls, mutex acquisition and rayon's work stealing is not controlled."),
